@@ -38,9 +38,32 @@ func genEvent(r *Rng, tsPool []int64) Ev {
 		if i > 0 && r.Chance(1, 5) {
 			name = e.Fields[r.Intn(i)][0] // duplicate field name
 		}
-		e.Fields = append(e.Fields, [2]string{name, r.PickStr(genWord(r), genMsg(r), "")})
+		val := r.PickStr(genWord(r), genMsg(r), "")
+		if r.Chance(1, 3) {
+			// names and values share one pool: a VALUE that reads like a field NAME (also as the very last item)
+			val = fieldNames[r.Intn(len(fieldNames))]
+		}
+		e.Fields = append(e.Fields, [2]string{name, val})
 	}
 	return e
+}
+
+// a field name that occurs as a VALUE in one of the events (Fields.Value must not take it for the name)
+func (g *gen) valueThatIsAName() (string, bool) {
+	var c []string
+	for _, e := range g.evs {
+		for _, kv := range e.Fields {
+			for _, n := range fieldNames {
+				if kv[1] == n {
+					c = append(c, n)
+				}
+			}
+		}
+	}
+	if len(c) == 0 {
+		return "", false
+	}
+	return c[g.r.Intn(len(c))], true
 }
 
 func (e Ev) slice() []string {
@@ -292,6 +315,15 @@ func (g *gen) cond() string {
 			name, exact, haveExact = n, v, r.Chance(2, 3)
 		}
 		pre := r.PickStr("fields:", "fields:", "Fields:", "FIELDS:")
+		if n, ok := g.valueThatIsAName(); ok && r.Chance(1, 4) {
+			// the queried name occurs as a value: the answer is the field of that name (or ""), never what follows the value
+			op := r.PickStr("=", "!=", "=", "<=", ">")
+			v := r.PickStr("", genWord(r), fieldNames[r.Intn(len(fieldNames))])
+			if _, fv, ok := g.someField(); ok && r.Chance(1, 2) {
+				v = fv
+			}
+			return pre + n + g.osp() + op + g.osp() + g.value(v)
+		}
 		operand := g.wrapFuncs(pre + name)
 		if haveExact {
 			// compare with a value that really occurs (boundary of <, <=, >, >=, =, !=)
@@ -396,4 +428,60 @@ func mutate(r *Rng, s string) string {
 		}
 	}
 	return string(b)
+}
+
+// funcOpCases: every operator under no function, UPPER, LOWER and a nest of both, for msg and a field, on
+// mixed-case data, with values whose match depends on the case mapping (and their opposite-case twins)
+func funcOpCases() []Replay {
+	evs := []Ev{
+		{Ts: 1, Msg: "Web-01 Error", Fields: [][2]string{{"host", "Web-01"}, {"lvl", "Error"}}},
+		{Ts: 2, Msg: "WEB-03 error", Fields: [][2]string{{"host", "WEB-03"}}},
+		{Ts: 3, Msg: "web-02 ERROR", Fields: [][2]string{{"lvl", "x"}, {"host", "web-02"}}},
+		{Ts: 4, Msg: "db-1", Fields: [][2]string{{"host", "db-1"}, {"host", "web-09"}}},
+		{Ts: 5, Msg: "", Fields: nil},
+	}
+	type fn struct {
+		wrap string
+		conv func(string) string
+	}
+	id := func(s string) string { return s }
+	fns := []fn{{"%s", id}, {"UPPER(%s)", strings.ToUpper}, {"lower(%s)", strings.ToLower},
+		{"Upper(LOWER(%s))", strings.ToUpper}, {"lower(upper(%s))", strings.ToLower}}
+	vals := map[string][]string{
+		"LIKE": {"Web-*", "*eb-0?", "[W-w]?b-*", "*"}, "CONTAINS": {"eb-0", "Error", "b-"}, "PREFIX": {"Web", "WEB-0", "d"},
+		"SUFFIX": {"-01", "Error", "B-03"}, "=": {"Web-01", "web-02", ""}, "!=": {"Web-01", "WEB-03"},
+		"<": {"Web-01", "web"}, "<=": {"Web-01", "WEB-03"}, ">": {"Web-01", "db"}, ">=": {"Web-01", "web-02"},
+	}
+	var out []Replay
+	for _, operand := range []string{"msg", "fields:host", "fields:lvl"} {
+		for _, f := range fns {
+			for _, op := range append(append([]string{}, strOps...), symOps...) {
+				for _, v := range vals[op] {
+					for _, vv := range []string{f.conv(v), v, strings.ToUpper(v), strings.ToLower(v)} {
+						text := fmt.Sprintf(f.wrap, operand) + " " + op + " " + fmt.Sprintf("%q", vv)
+						out = append(out, Replay{Kind: "where", Stream: "funcops", Text: text, Events: evs})
+					}
+				}
+			}
+		}
+	}
+	return out
+}
+
+// collisionCases: a value that equals the queried field name, before the real field, instead of it, and as the last item
+func collisionCases() []Replay {
+	evs := []Ev{
+		{Ts: 1, Msg: "a", Fields: [][2]string{{"sortby", "level"}, {"level", "error"}}},
+		{Ts: 2, Msg: "b", Fields: [][2]string{{"sortby", "level"}, {"host", "h4"}}},
+		{Ts: 3, Msg: "c", Fields: [][2]string{{"host", "h4"}, {"sortby", "level"}}},
+		{Ts: 4, Msg: "d", Fields: [][2]string{{"level", "level"}, {"x", "level"}}},
+		{Ts: 5, Msg: "e", Fields: [][2]string{{"x", "host"}, {"host", ""}, {"y", "host"}}},
+	}
+	var out []Replay
+	for _, text := range []string{`fields:level = error`, `fields:level = ""`, `fields:level = "host"`, `fields:level != "h4"`,
+		`fields:host = "h4"`, `fields:host = ""`, `fields:level = level`, `NOT fields:level = "" OR fields:host > ""`,
+		`upper(fields:level) = "ERROR" or fields:sortby = level`} {
+		out = append(out, Replay{Kind: "where", Stream: "collide", Text: text, Events: evs})
+	}
+	return out
 }
